@@ -152,8 +152,19 @@ impl<Args> RepeatTask<Args> {
     task: fn(&mut Args, usize) -> bool,
     args: Args,
   ) -> Self {
+    Self::with_first_tick(dur, dur, task, args)
+  }
+
+  /// Like `new`, but the first call of `task` is due `first` after the
+  /// construction instead of one whole `dur` after it.
+  pub fn with_first_tick(
+    first: Duration,
+    dur: Duration,
+    task: fn(&mut Args, usize) -> bool,
+    args: Args,
+  ) -> Self {
     Self {
-      fur: new_timer(dur),
+      fur: new_timer(first),
       interval: dur,
       task,
       args,
